@@ -258,7 +258,7 @@ func (p *c09Peer) serve(c net.Conn) {
 				sendOwn(1)
 			}
 		case "garblen":
-			p.log.add(c09Event{Kind: "junk", Call: -1, ID: id})
+			p.log.add(c09Event{Kind: "kill", Call: -1, ID: id})
 			write([]byte{0, 0, 0, 1})
 		case "close":
 			p.log.add(c09Event{Kind: "close", Call: -1, ID: id})
